@@ -252,6 +252,26 @@ def c14(run, vc):
                       assumptions=["symbolic model; Fiat-Shamir challenge is a random oracle", "independent transcript on merlin with labels/order from spec/Tags.tla"])
 
 
+# ------------------------------------------------------------------------------------ C10
+def c10(run, vc):
+    tier = run.tier
+    tables = _prep(run, vc)
+    cfg = "MC_Pok_%s.cfg" % tier
+    r, bad = _tlc_stage(run, vc, "MC_Pok", cfg, [("Pok", "Ok"), ("Pok", "Err"), ("PokTs", "Ok"), ("PokTs", "Err")], timeout=7200)
+    if bad:
+        return run.finish()
+    vecs = r["vectors"]
+    if not any(v["act"] == "PokTs" and v["tau"] >= 0 and v["delay"] == v["tau"] + 1 for v in vecs):
+        raise vc.ToolError("vacuity: no verification exactly one millisecond after the timeout")
+    _sample(run, [v for v in vecs if v["act"] == "PokTs"])
+    _sample(run, [v for v in vecs if v["act"] == "Pok"], 2)
+    s = vc.replay(vecs, "c10", tables, profiles="5")
+    run.add_replay(s, "commit-challenge-response and timestamp proofs: every scheme, challenge kind, single-component perturbation, delay class vs timeout (virtual clock hook), every timestamp class", vecs,
+                   lambda v: v["pert"] != "none" or v.get("y") == "zero" or (v["act"] == "PokTs" and v["tau"] >= 0))
+    return run.finish(rule="vectors = every Pok and PokTs transition: keys x messages x 3 schemes x challenge kinds {from bytes, from hash, random, zero} x perturbations of (u, v, y, msg, pk, label) ; timestamp proofs x perturbations incl. timestamp {past, future, 0, u64::MAX} x delay classes {0, tau-1, tau, tau+1, >>tau} x timeouts incl. none; non-trivial = any perturbation, zero challenge, or a timeout in force",
+                      assumptions=["symbolic model; Hy is a random oracle", "virtual clock hook (--cfg blsful_verif) replaces SystemTime::now in the two timestamp functions"])
+
+
 # ------------------------------------------------------------------------------------ traces
 def _trace_signet(run, vc, tables, name, events, mix="all"):
     """implementation -> spec: record a random walk of the real library, validate with TLC."""
@@ -260,4 +280,4 @@ def _trace_signet(run, vc, tables, name, events, mix="all"):
     vc.record_and_validate(run, "signet", "Trace_SigNet", name, events, tables, mix=mix)
 
 
-CHECKS = {"C01": c01, "C02": c02, "C06": c06, "C07": c07, "C08": c08, "C09": c09, "C11": c11, "C12": c12, "C13": c13, "C14": c14}
+CHECKS = {"C01": c01, "C02": c02, "C06": c06, "C07": c07, "C08": c08, "C09": c09, "C10": c10, "C11": c11, "C12": c12, "C13": c13, "C14": c14}
